@@ -52,6 +52,8 @@ ASSUMPTIONS = [
     "relative to 1 + sum |v|; only the datatype of SUM/AVG is a proved statement there",
     "GROUP BY over an empty solution sequence: both no row and one row with nothing bound are accepted (algebra text vs "
     "W3C test agg-empty-group)",
+    "subselect suite: the solution sequences of the sub-select's pattern and of the neighbouring pattern are inputs; the join "
+    "is the nested loop over compatible pairs (its evaluation strategy is C04's subject), rows of the group compared as a multiset",
     "the order of GROUP_CONCAT, the member returned by SAMPLE and the choice among tied MIN/MAX values are "
     "left open by the specification checker",
 ]
@@ -932,4 +934,98 @@ class C08Promo(Suite):
                     yield {"avg": avg, "vals": [[dt, PVALUES[dt][1]] for dt in dts]}
 
 
-SUITES = [C08(), C08Promo()]
+# ---------------------------------------------------------------------------------------------
+# A sub-select with ORDER BY / LIMIT / OFFSET inside a group: evaluated on its own, then joined.
+class C08Sub(Suite):
+    name = "subselect"
+    imports = "From RV Require Import Modifiers.SubModel."
+    case_ty = "scase"
+    obs_ty = "sobs"
+    model = "smodel"
+    oeq = "sobs_eqb"
+    spec = "sspec"
+    corr = ("evaluate.evalSlice/evalOrderBy/evalProject/evalDistinct inside a SubSelect (ToMultiSet), evalJoin / "
+            "evalLazyJoin, algebra.analyse (which parts may be joined lazily)")
+    quick_n = 150
+    thorough_n = 3000
+    timeout_s = 20.0
+
+    INNER = "?v0 <http://e/p> ?v2"
+    OUTER = ["?v0 <http://e/q> ?v3", "?v4 <http://e/q> ?v3", "?v0 <http://e/q> ?v2"]
+    OUTER_VARS = [[0, 3], [3, 4], [0, 2]]
+
+    def __init__(self):
+        self.mod = C08()
+
+    # case = {"graph", "outer": index, "first": bool (sub-select written first), "order", "proj", "distinct", "slice"}
+    def gen(self, rng, i):
+        objs = rng.sample(OBJ_NUM + [Literal("x"), URIRef(E + "a")], rng.choice([3, 4, 5]))
+        graph = self.mod.gen_graph(rng, objs, 12)
+        proj = rng.choice([[0, 2], [0, 2], [0], [2]])
+        keys = rng.choice([[], [[rng.random() < 0.5, 2]], [[rng.random() < 0.5, 2], [False, 0]], [[rng.random() < 0.5, 0]]])
+        off = rng.choice([0, 0, 0, 1, 2])
+        lim = rng.choice([1, 1, 2, 2, 3, None]) if off else rng.choice([1, 1, 2, 2, 3])
+        case = {"graph": graph, "outer": rng.choice([0, 0, 0, 1, 2]), "first": rng.random() < 0.3, "order": keys,
+                "proj": proj, "distinct": rng.random() < 0.2, "slice": [off, lim]}
+        if rng.random() < 0.2:
+            # SELECT DISTINCT sub-select without a slice: Distinct, too, must be evaluated on its own
+            case["distinct"], case["slice"] = True, None
+        return case
+
+    def sub_case(self, case, sliced=True):
+        return {"graph": case["graph"], "pattern": 0, "group": None, "aggs": [], "having": None, "order": case["order"],
+                "proj": case["proj"], "distinct": case["distinct"], "slice": case["slice"] if sliced else None,
+                "galias": None}
+
+    def texts(self, case):
+        sub = self.sub_case(case)
+        _, _, full, final = self.mod.queries(sub)
+        outer = self.OUTER[case["outer"]]
+        grp = ("{ %s } %s" % (final, outer)) if case["first"] else ("%s . { %s }" % (outer, final))
+        return full, final, "SELECT * WHERE { %s }" % grp, "SELECT * WHERE { %s }" % outer
+
+    def run_impl(self, case):
+        g = self.mod.graph_of(case)
+        full, final, whole, outer = self.texts(case)
+        allv = sorted(set(case["proj"]) | set(self.OUTER_VARS[case["outer"]]))
+        try:
+            f = self.mod.rows_of(g.query(full), sorted(case["proj"]))
+            s = self.mod.rows_of(g.query(final), sorted(case["proj"]))
+            j = self.mod.rows_of(g.query(whole), allv)
+        except Exception as e:  # noqa: BLE001
+            return {"err": type(e).__name__}
+        return {"full": f, "sliced": s, "joined": j}
+
+    def coq_case(self, case):
+        g = self.mod.graph_of(case)
+        outer = self.mod.rows_of(g.query(self.texts(case)[3]), sorted(self.OUTER_VARS[case["outer"]]))
+        return "{| s_sub := %s; s_outer := %s |}" % (self.mod.coq_case(self.sub_case(case)), c_rows(outer))
+
+    def coq_obs(self, obs):
+        if "err" in obs:
+            return "SErr"
+        return f"(SRows {c_rows(obs['full'])} {c_rows(obs['sliced'])} {c_rows(obs['joined'])})"
+
+    def nontrivial(self, case, obs):
+        return "joined" in obs and len(obs["full"]) > 0
+
+    def features(self, case, obs):
+        f = {"subselect_first": int(case["first"]), "limit_without_offset": int(bool(case["slice"]) and case["slice"][0] == 0),
+             "distinct_without_slice": int(case["slice"] is None),
+             "ordered": int(bool(case["order"])), "raised": int("err" in obs)}
+        if "joined" in obs:
+            f["slice_cuts"] = int(len(obs["sliced"]) < len(obs["full"]))
+            f["joined_rows"] = len(obs["joined"])
+        return f
+
+    def shrink(self, case):
+        g = case["graph"]
+        for i in range(len(g)):
+            yield dict(case, graph=g[:i] + g[i + 1:])
+        if case["order"]:
+            yield dict(case, order=[])
+        if case["distinct"]:
+            yield dict(case, distinct=False)
+
+
+SUITES = [C08(), C08Promo(), C08Sub()]
